@@ -28,7 +28,8 @@ Tokens == << UbxSerialize(6, 0, <<>>),              \*  1 UBX, empty payload
              BadLast(Rtcm(<<62, 1>>)),              \*  8 RTCM bad CRC
              <<0>>, <<65, 1>>,                      \*  9,10 noise without frame-start bytes
              <<181>>, <<181, 98>>, <<36>>, <<36, 71>>, <<211>>, <<211, 0>>, <<10>>,  \* 11..17 fragments
-             <<211, 0, 0>>, <<181, 98, 6, 1, 3, 0>>, <<36, 90>> >>               \* 18..20 fragments
+             <<211, 0, 0>>, <<181, 98, 6, 1, 3, 0>>, <<36, 90>>,                 \* 18..20 fragments
+             UbxSerialize(4, 4, UbxSerialize(6, 0, <<>>)) >>                        \* 21 a good frame whose payload is a good frame
 NTok == Len(Tokens)
 CleanToks == 1..10          \* whole frames and preamble-free noise: streams of these are "clean"
 
@@ -54,6 +55,21 @@ LemmaSocket == Lemma \in {"socket", "all"} =>
         LET f == R(S, 7, q, TRUE)
             k == Run(S, [Cfg(7, q, TRUE) EXCEPT !.sock = TRUE], GoodNmea)
         IN ItemsEq(k.out, f.out) /\ k.pc = "done" /\ f.pc = "done"
+
+\* polling after end-of-stream (successive read() calls, C07): over a file-like stream nothing more comes; over a socket wrapper
+\* whatever comes is still an in-order, non-overlapping slice with a preamble
+LemmaPoll == Lemma \in {"poll", "all"} =>
+    \A q \in {0, 1} :
+        LET f  == RunPoll(InitState, S, Cfg(7, q, TRUE), GoodNmea, 2)
+            k  == RunPoll(InitState, S, [Cfg(7, q, TRUE) EXCEPT !.sock = TRUE], GoodNmea, 2)
+        IN /\ ItemsEq(f.out, R(S, 7, q, TRUE).out) /\ f.pc = "done"
+           /\ k.pc = "done" /\ Slices(k, S, NmeaB2)
+\* DEMONSTRATION (expected to be violated, documents what the code does): over a socket wrapper a polling caller of a CUT stream can
+\* be handed an item the uncut stream never yields - the frame nested in the payload of the frame the cut fell into
+LemmaPollCutSock == Lemma = "pollcut" =>
+    \A k \in 0..Len(S) :
+        LET c == RunPoll(InitState, SubSeq(S, 1, k), [Cfg(7, 1, TRUE) EXCEPT !.sock = TRUE], GoodNmea, 2) IN
+        Len(c.out) <= Len(Full.out) /\ ItemsEq(c.out, SubSeq(Full.out, 1, Len(c.out)))
 
 \* C07 on the machine: the run ends, nothing left, slices
 LemmaEnds == Lemma \in {"ends", "all"} =>
